@@ -56,10 +56,15 @@ REPS = [
     ("d8", "{%s}" % ", ".join("%d: %d" % (i, i) for i in range(8, 0, -1)), ["d", [[cI(i), cI(i)] for i in range(1, 9)]]),
     ("ld8", "[{%s}]" % ", ".join("%d: %d" % (i, i) for i in range(1, 9)), ["l", [["d", [[cI(i), cI(i)] for i in range(1, 9)]]]]),
     ("ld8", "[{%s}]" % ", ".join("%d: %d" % (i, i) for i in range(8, 0, -1)), ["l", [["d", [[cI(i), cI(i)] for i in range(1, 9)]]]]),
+    # machine-word integers that no float represents next to the float they would round to (2^53+1 is class `wide` above): key
+    # equality and == may not go through f64
+    ("f53", "(2^53)", cI(2 ** 53)), ("f53", "(2.0^53)", cF(2.0 ** 53)),
+    ("w63", "9223372036854775807", cI(2 ** 63 - 1)), ("f63", "(2^63)", cI(2 ** 63)), ("f63", "(2.0^63)", cF(2.0 ** 63)),
+    ("wide", "9007199254740993", cI(2 ** 53 + 1)),      # the machine-word spelling of 2^53+1 (`2^53+1` is held in big representation)
 ]
-QUICK_REPS = [0, 1, 2, 5, 6, 10, 11, 13, 14, 17, 30, 19, 22, 23, 26, 27, 31, 32, 33, 34, 35, 36, 37]       # 1, 1.0, 2/2, 1/2, 0.5, 2^64, 2.0^64, [1], [1.0], "1", V(1, NaN), V(1.0, NaN)
+QUICK_REPS = [0, 1, 2, 5, 6, 10, 11, 13, 14, 17, 30, 19, 22, 23, 26, 27, 31, 32, 33, 34, 35, 36, 37, 41, 42, 44, 45]       # 1, 1.0, 2/2, 1/2, 0.5, 2^64, 2.0^64, [1], [1.0], "1", V(1, NaN), V(1.0, NaN)
 # depth-3 search: 21 representatives ([NaN], {1: NaN} and the two spellings of 1/3 stay in the grid family, which uses every representative)
-MID_REPS = [0, 1, 2, 3, 4, 5, 6, 7, 9, 10, 11, 12, 13, 14, 15, 16, 17, 30, 19, 22, 23, 26, 27, 31, 32, 33, 34, 35, 36, 37, 38, 39]
+MID_REPS = [0, 1, 2, 3, 4, 5, 6, 7, 9, 10, 11, 12, 13, 14, 15, 16, 17, 30, 19, 22, 23, 26, 27, 31, 32, 33, 34, 35, 36, 37, 38, 39, 40, 41, 42, 43, 44, 45]
 
 OPS = ["set", "inc", "rem", "add", "sub", "merge", "inter", "minus", "plus", "ins"]
 RAISE = "raise"
@@ -300,7 +305,7 @@ def tally(case, rs, extra):
 
 # ---------------------------------------------------------------- grid part
 GRID_FORMS = ["literal", "set", "dict", "unique", "frequencies", "count_distinct", "group_all", "keys", "values", "items", "len",
-              "memoize", "eqrebuilt"]
+              "memoize", "eqrebuilt", "eqin"]
 
 
 def cases(tier):
@@ -326,9 +331,16 @@ def cases(tier):
             "len": "len(%s)" % lit,
             "memoize": 'f := memoize(\\x -> (print("c"); 7)); [%s]' % ", ".join("f(%s)" % s for s in srcs),
             "eqrebuilt": "%s == {%s}" % (lit, ", ".join("%s: %d" % (REPS[alt_rep(k)][1], v) for k, v in final_pairs(ks))) if ks else "{} == {}",
+            # `==` and key addressing agree on every pair: a == b exactly when b is found in {a: 0}
+            "eqin": "[%s]" % ", ".join("[%s == %s, %s in {%s: 0}]" % (a, b, b, a) for a in srcs for b in srcs),
         }
         for form in GRID_FORMS:
+            if form == "eqin" and (len(ks) != 2 or any(REPS[k][0] in NAN_CLASSES for k in ks)):
+                continue      # pairs only; NaN is a key equal to itself but not == to itself
             yield Case(progs[form], {"kind": "grid", "form": form, "ks": ks})
+
+
+NAN_CLASSES = ("nan", "vnan", "lnan", "dnan")
 
 
 def alt_rep(k):
@@ -405,6 +417,9 @@ def judge_grid(case, rs):
             return [Violation(sig + " result=wrong-call-count", "%s: function body ran %d times for %d distinct keys" % (case.steps[0], calls, len(pairs)), len(pairs), calls)]
     elif form == "eqrebuilt":
         want = cI(1)
+        ok = got == want
+    elif form == "eqin":
+        want = ["l", [["l", [cI(int(REPS[a][0] == REPS[b][0]))] * 2] for a in ks for b in ks]]
         ok = got == want
     if not ok:
         return [Violation(sig + " result=wrong-value", "%s gave %s, model says %s" % (case.steps[0], json.dumps(got)[:300], json.dumps(want)[:300]), want, got)]
